@@ -279,6 +279,24 @@ def run(ctx):
                 with ctx.case(label=(text, fnames)):
                     check_pattern(ctx, toks, fnames, [n for n in names if n], api_sample=True, text=text)
                 ctx.count('bracket_templates')
+    # ---- two stars in front of a list, at the start of an alternative of an enclosing list ---------------
+    L2 = lambda x: tuple(('lit', c) for c in x)  # noqa: E731
+    inner = (('star',), ('grp', '*', (L2('b'),)))
+    si2 = 0
+    for outer_kind in '@+*?!':
+        for alts in ((inner,), (L2('a'), inner), (inner, L2('c')), (inner + L2('c'),), (L2('a') + inner,)):
+            for post in ((), L2('c'), (('star',),)):
+                si2 += 1
+                if not ctx.mine(si2):
+                    continue
+                toks = (('grp', outer_kind, alts),) + post
+                if not gen.in_fragment(toks):
+                    continue
+                for fnames in flagsets(si2):
+                    names = ['a', 'abb', 'b', 'bb', 'xb', 'c', 'bc', 'xbc', '(b)', '*(b)', 'x(b))', ')', 'ac', 'ab', 'abc', 'xyz', 'a)', '(b))c', 'bbc', 'xc']
+                    with ctx.case(label=(gen.ser(toks), fnames)):
+                        check_pattern(ctx, toks, fnames, names, api_sample=True)
+                    ctx.count('nested_double_star_templates')
     # ---- a separator written in a file-name pattern is an ordinary character -----------------------
     L = lambda x: tuple(('lit', c) for c in x)  # noqa: E731
     after = [(('star',),), (('star',), ('star',)), (('q',), ('lit', 'b')), (('set', True, (('c', 'x'),), '!'), ('lit', 'b')),
